@@ -148,18 +148,23 @@ def consts(run, driver):
 # API level
 
 
-def exact_election(rng, n_rep, n_partial=3, dup=False):
+def exact_election(rng, n_rep, n_partial=3, dup=False, first_state=None):
+    """exactly n_rep reporting units. first_state = k: a two-state election, the first k reporting units in AA and the others in BB;
+    the outstanding units alternate between the states (k = n_rep: BB is modelled but has no reporting unit yet)"""
     e = E.Election()
-    e.states = ["AA"]
+    e.states = ["AA"] if first_state is None else ["AA", "BB"]
     e.unit_type = "county"
     e.office = "G"
     e.threshold = 100
     rows, feed = [], []
     for i in range(n_rep + n_partial):
-        uid = f"10{i:03d}"
+        st = "AA"
+        if first_state is not None and ((i < n_rep and i >= first_state) or (i >= n_rep and (i - n_rep) % 2 == 0)):
+            st = "BB"
+        uid = f"{1 if st == 'AA' else 2}0{i:03d}"
         bd, bg = rng.randint(50, 3000), rng.randint(50, 3000)
         bt = bd + bg + rng.randint(0, 100)
-        row = {"postal_code": "AA", "geographic_unit_fips": uid, "county_fips": uid, "county_classification": "urban",
+        row = {"postal_code": st, "geographic_unit_fips": uid, "county_fips": uid, "county_classification": "urban",
                "baseline_dem": bd, "baseline_gop": bg, "baseline_turnout": bt, "x1": rng.randint(-64, 64) / 64,
                "x2": rng.randint(0, 128) / 64}
         rows.append(row)
@@ -218,8 +223,14 @@ def api(run, driver, n_cases):
             n = need_i + DEDICATED[i][1]
         n = max(1, n)
         dup = i >= 0 and rng.random() < 0.12 and n >= need_i
-        e = exact_election(rng, n, n_partial=rng.randint(1, 4), dup=dup)
-        case = {"api": True, "pi_method": pi, "alphas": alphas, "n_reporting": n, "minimum": need, "duplicate": dup}
+        first = None
+        if i >= 0 and (i % 4 >= 2 and i < 12 or rng.random() < 0.3):
+            # the minimum counts reporting units of the whole run, however they are spread over the contests: all in one state while
+            # the other has none yet, half and half, all but one, one
+            first = rng.choice([n, n, n // 2, n - 1, 1]) if i >= 12 else [n, n // 2][(i // 4) % 2]
+        e = exact_election(rng, n, n_partial=rng.randint(2 if first is not None else 1, 4), dup=dup, first_state=first)
+        case = {"api": True, "pi_method": pi, "alphas": alphas, "n_reporting": n, "minimum": need, "duplicate": dup,
+                "reporting_in_first_state": first}
         if pi == "bootstrap":
             res = E.run_client(e, estimands=["margin"], alphas=alphas, pi_method=pi, params=E.boot_params(B=6),
                                features=["baseline_normalized_margin"])
